@@ -25,6 +25,12 @@
 (*              errt: transient failure (timed-out / would-block read) at  *)
 (*                    faultAt, the stream continues afterwards             *)
 (*              bad : framing bytes at faultAt are malformed               *)
+(*              lenient: no fault of the peer's connection, but line breaks   *)
+(*                    of the chunked framing are bare LF instead of CRLF:  *)
+(*                    outside RFC 9112's grammar, unambiguous all the same.*)
+(*                    A client may refuse it (an error) or accept it; what *)
+(*                    it hands out, and that it never waits for octets it  *)
+(*                    does not need, is judged as for an intact response   *)
 (*   faultAt    wire offset of the fault                                   *)
 (***************************************************************************)
 EXTENDS Naturals, Sequences, FiniteSets
@@ -34,7 +40,7 @@ Max(a, b) == IF a > b THEN a ELSE b
 SetMax(S) == CHOOSE x \in S : \A y \in S : y <= x
 
 Framings == {"length", "chunked", "close", "none"}
-FaultKinds == {"none", "cut", "err", "errt", "bad"}
+FaultKinds == {"none", "cut", "err", "errt", "bad", "lenient"}
 
 (* Payload octets that can be handed to the caller once `arrived` wire     *)
 (* octets are there (property C19's definition): every body octet for      *)
